@@ -32,23 +32,39 @@ T = {
  "C09": (1, "exploration", "property-based testing (rapidcheck): differential (window vs. standalone copy) + model + bit-exact parent snapshots",
          "every catalogue operation with each operand independently a window in a junk parent; three-way oracle",
          "window column offsets are multiples of 64 (documented precondition); *_russian building blocks only on even word offsets; samples"),
- "C10": (0, "exploration", "", "", ""),
- "C11": (0, "exploration", "", "", ""),
- "C12": (0, "exploration", "", "", ""),
+ "C10": (1, "exploration", "property-based testing (rapidcheck): metamorphic relation fresh state vs. generated call history + heap patterns injected by an allocation wrapper, plus the model oracle",
+         "the block cache is primed with dirty blocks of exactly the shapes the final operation allocates; fresh heap blocks are pattern-filled and freed ones poisoned through -Wl,--wrap; output digests must agree and every owned matrix must have zero padding",
+         "results are compared through digests of canonical outputs; the wrapper sees only allocations made from the linked objects (not libpng/libc internals)"),
+ "C11": (1, "exploration", "property-based testing (rapidcheck) under fatal ASan/UBSan with an allocator-balance invariant; forked-child fate checks for ill-dimensioned wrapper calls",
+         "all catalogue cases with window placements at 8-mod-16 row starts in builds where any sanitizer report kills the process (the journal entry is the verdict); live allocation set must return to its pre-call value (thread-safe build: headers are heap blocks); every checked wrapper x operand with a wrong dimension must die in m4ri_die with operands bit-identical",
+         "memory errors that neither ASan nor UBSan can see (e.g. reads of initialised padding inside an allocation) are outside this monitor; C09/C10 cover them semantically"),
+ "C12": (1, "exploration", "differential testing of one rapidcheck-generated case list across build configurations produced by the repository's own configure, and across parameter values",
+         ">= 7 (quick) / >= 23 (thorough) configurations incl. random cache triples, each case with two further k / cutoff values; canonical digests must agree everywhere and with the reference model",
+         "sanitizer flags and -O1 are the harness's, everything else in the configuration header comes from configure; <= 23 configurations per run"),
  "C13": (1, "exploration", "property-based testing (rapidcheck): swap-sequence semantics in a reference model; exhaustive bit-position pairs and (spot,n) ranges",
          "statement's semantics executed literally in the model incl. Pi*A / A*Pi for the same Pi and undo by the transposed counterpart",
          "LAPACK swap form i <= P[i] < length; distinct rows for row addition; trusts the reference model"),
- "C14": (0, "exploration", "", "", ""),
- "C15": (0, "exploration", "", "", ""),
- "C16": (0, "exploration", "", "", ""),
+ "C14": (1, "exploration", "stateful model-based testing (rapidcheck-generated command lists against a model of the live set), allocation wrapper for the final balance",
+         "histories cross the 64-header block, the 16-block limit, the 16-slot block cache incl. eviction and dirty reuse; invariants after every command",
+         "the history is interpreted leniently (indices modulo the live set) so that every generated list is valid; the balance check needs the wrapper builds"),
+ "C15": (1, "exploration", "property-based testing (rapidcheck-generated per-thread programs) under ThreadSanitizer + differential against the sequential execution",
+         "2..16 threads on thread-private operands in the --enable-thread-safe configuration (header from the repository's configure); a race report terminates the process and is the verdict",
+         "schedules are sampled, not enumerated; a race on a path no generated program takes is not seen"),
+ "C16": (1, "exploration", "property-based testing (rapidcheck) across OpenMP thread counts and nesting levels, differential against the sequential build, ThreadSanitizer + Archer slice",
+         "every execution equals the reference model; all thread counts give one digest; the shared case list gives the same digests in the sequential build",
+         "schedules are sampled; Archer judges only the executions that happened"),
  "C17": (1, "exploration", "property-based testing (rapidcheck): observers vs. model predicates and the comparison laws, on owned matrices and windows",
          "near-equal pairs/triples, single-one regions per word class, all four pivot-search paths labelled",
          "mzd_cmp is judged by its laws, not by a particular order; trusts the reference model"),
- "C18": (0, "exploration", "", "", ""),
+ "C18": (1, "exploration", "property-based testing (rapidcheck): round trips with an independent reference PNG codec, grammar-based malformed files read in forked children of the fatal-sanitizer build; libFuzzer target in the thorough tier",
+         "every bit depth x colour type x interlace, structure-aware mutations with valid CRCs, JCF single-token corruptions; fates classified (NULL / abort / matrix equal to what the file denotes)",
+         "libpng internals are not judged; abort() through libpng's default error path is an accepted rejection"),
  "C19": (1, "exploration", "exhaustive enumeration of the finite domains + property-based testing (rapidcheck) of the table builder and word kernels",
          "code book k=1..16, all masks, complete single-bit bases of the linear word kernels are enumerated completely; mzd_make_table and random combinations are sampled",
          "definitions are stated in the orientation the code uses (bit b of a pattern <-> row r+b); linearity of the word kernels justifies the basis argument"),
- "C20": (0, "fault_enumeration", "", "", ""),
+ "C20": (1, "fault_enumeration", "exhaustive single-fault injection per scenario instance via -Wl,--wrap allocation wrapper and forked children; scenario sizes partly rapidcheck-generated",
+         "for each of 45 scenarios x sizes every allocation request index is failed once; required fate SIGABRT with a diagnostic and no sanitizer report",
+         "only requests issued from m4ri objects fail (libc/libpng internals are not intercepted); size-0 requests never fail"),
 }
 
 
